@@ -85,6 +85,10 @@ impl Case {
         let fair = (3 * LIMIT) / self.count().max(1);
         let n = want.min(self.max_item()).min(fair.max(16));
         let p = c14::Payload { kind: self.content % 5, size: n as u32, seed: self.seed.wrapping_add(i as u16) };
+        if class % 8 == 0 && self.codec % 3 != 2 {
+            // a truly empty payload (string "" / empty byte vector): identified by position only
+            return vec![];
+        }
         let mut v = format!("item-{i}-").into_bytes();
         if self.codec % 3 == 0 {
             // text only for the string codec
